@@ -729,6 +729,50 @@ def _check_constants(ctx, rep):
                             ok = False
             rep.check(ok, "I5", f, node, "e0 - sum_{x<m-1} row0(block x), inserted at d^4 (m-1)",
                       "the summed slices are not the first rows (d^4*x .. d^4*x + d^2) of blocks 0..m-2", node=node)
+    # removal side: the row taken out is the one the insertion side re-creates
+    f = ix.func(OBJ + "mprocess.convert_hss_to_var")
+    dels = [n for n in own_nodes(f.node) if isinstance(n, ast.Call) and (dotted(n.func) or "").endswith("delete")]
+    if len(dels) == 1:
+        dl = dels[0]
+        ax = kwarg(dl, "axis") or (dl.args[2] if len(dl.args) > 2 else None)
+        guard = None
+        loop = None
+        from ..index import parents
+        for p_ in parents(dl):
+            if isinstance(p_, ast.If) and guard is None and any(dl is x for b in p_.body for x in ast.walk(b)):
+                guard = unparse(p_.test).replace(" ", "")
+            if isinstance(p_, ast.For):
+                loop = p_
+                break
+        lv = None
+        if loop is not None and isinstance(loop.iter, ast.Call) and dotted(loop.iter.func) == "enumerate" and isinstance(loop.target, ast.Tuple) \
+                and unparse(loop.iter.args[0]) == "hss":
+            lv = (loop.target.elts[0].id, loop.target.elts[1].id)
+        row0 = len(dl.args) >= 2 and is_num(dl.args[1], 0) and ax is not None and is_num(ax, 0)
+        if lv is None:
+            rep.undecided("I5", f, dl, "np.delete is not inside `for index, hs in enumerate(hss)`")
+        else:
+            last = guard in ("%s==len(hss)-1" % lv[0], "len(hss)-1==%s" % lv[0])
+            rep.check(row0 and last and unparse(dl.args[0]) == lv[1], "I5", f, dl, "removes row 0 of the last block (the row convert_var_to_hss re-creates)",
+                      "removes `%s` under guard `%s`; convert_var_to_hss re-creates row 0 of the LAST block" % (unparse(dl), guard), node=dl)
+    else:
+        rep.undecided("I5", f, "np.delete", "expected one np.delete(hs, 0, axis=0)")
+    f = ix.func(OBJ + "mprocess.MProcess.convert_stacked_vector_to_var")
+    dels = [n for n in own_nodes(f.node) if isinstance(n, ast.Call) and (dotted(n.func) or "").endswith("delete")]
+    if len(dels) == 1 and len(dels[0].args) == 2 and isinstance(dels[0].args[1], ast.Subscript) and unparse(dels[0].args[1].value) == "np.s_" \
+            and isinstance(dels[0].args[1].slice, ast.Slice):
+        sl = dels[0].args[1].slice
+        try:
+            defs = {k: v for k, v in single_defs(f).items() if k != "num_outcomes"}
+            lo, hi = _size_poly(sl.lower, f, defs), _size_poly(sl.upper, f, defs)
+            # here num_outcomes = len // hs_size = m (the stacked vector is complete)
+            want = (Poly.sym("d") ** 4) * (Poly.sym("m") - 1)
+            rep.check(lo == want and hi - lo == D2, "I5", f, dels[0], "removes entries d^4 (m-1) .. + d^2 (row 0 of the last block)",
+                      "removes entries %r .. %r; the implied row occupies %r .. + d^2" % (lo, hi, want), node=dels[0])
+        except Undecided as ex:
+            rep.undecided("I5", f, dels[0], str(ex))
+    else:
+        rep.undecided("I5", f, "np.delete", "expected one np.delete(stacked_vector, np.s_[lo:hi])")
     f = ix.func(OBJ + "mprocess.MProcess._generate_origin_obj")
     st = _store_consts(f, "hs")
     if len(st) == 1 and st[0][0] == ("0", "0"):
